@@ -299,6 +299,22 @@ pub fn fastq_doc_with(max_recs: usize, allow_mixed: bool) -> BoxedStrategy<B> {
         .boxed()
 }
 
+/// always with a defect (C17): wrong start / separator byte, length mismatch, truncation, dropped line
+pub fn fastq_doc_defective(max_recs: usize) -> BoxedStrategy<B> {
+    let wrong = prop_oneof![4 => prop::sample::select(&b">+A;x \r\n"[..]), 1 => any::<u8>()];
+    let d = prop_oneof![
+        3 => (any::<u16>(), wrong.clone()).prop_map(|(i, b)| Defect::WrongStart(i, b)),
+        3 => (any::<u16>(), wrong).prop_map(|(i, b)| Defect::WrongSep(i, b)),
+        3 => (any::<u16>(), prop_oneof![Just(-1i8), Just(1), Just(-3), Just(2)]).prop_map(|(i, d)| Defect::LenMismatch(i, d)),
+        3 => any::<u16>().prop_map(Defect::Truncate),
+        1 => (any::<u16>(), 0u8..4).prop_map(|(i, l)| Defect::DropLine(i, l)),
+    ];
+    let trail = prop_oneof![6 => Just(0usize), 2 => 1usize..3];
+    (vec(fq_rec_spec(), 1..=max_recs), endings(), prop::bool::weighted(0.7), trail, d)
+        .prop_map(|(recs, e, final_term, trail, d)| B(render_fq(&recs, e, final_term, trail, &d)))
+        .boxed()
+}
+
 pub fn fastq_doc() -> BoxedStrategy<B> {
     fastq_doc_with(8, false)
 }
